@@ -151,6 +151,12 @@ def coerce(sv, ty, classes=None):
             return SV(ty, sv.t)
     if ty == TInt and s == TBool:
         return SV(TInt, z3.If(sv.t, z3.IntVal(1), z3.IntVal(0)))
+    if isinstance(ty, TOpaque) and ty.name == 'PyVal' and not isinstance(s, TOpaque) and not is_bottom_container(s):
+        # any Python value can be used where an arbitrary value is expected (injection)
+        from .strops import ufun
+        b = box(sv)
+        f = ufun('pyval_of_' + ''.join(ch if ch.isalnum() else '_' for ch in s.key()), b.sort(), ty.sort())
+        return SV(ty, f(b))
     raise TypeMismatch('cannot use %s as %s' % (s, ty))
 
 
